@@ -18,9 +18,14 @@ DECIDES = ("Decided: whether a declared type / explicit type argument is printed
            "can_infer_type_args; each declaration visitor reads every attribute its language can express and consults "
            "each boolean modifier independently of the other modifiers; the offsets "
            "used to slice children results follow the order in which children() concatenates; every visitor has net "
-           "effect +1 on the result stack on every path and pops exactly the results of the children it visited.")
-NOT_DECIDED = ("that the text is a correct rendering (literal values, operator spelling, bracket balance, keyword "
-               "spelling) - string building is value-level.")
+           "effect +1 on the result stack on every path and pops exactly the results of the children it visited; "
+           "brackets and quotes: on every decision-consistent path through every method of the four translators the "
+           "string literals it evaluates (format templates parsed with string.Formatter, concatenations, f-strings, "
+           "constants, same-module helpers) are balanced in (), {}, [], <> and double quotes, loop bodies / comprehension "
+           "elements / join separators each by themselves - so a translation is balanced by induction over the tree.")
+NOT_DECIDED = ("that the text is a correct rendering (literal values, keyword spelling, statement terminators, "
+               "indentation, the order of fragments inside a template) - string building is value-level; bracket balance "
+               "is decided for the literals of the translators, not for text that comes from names or type names.")
 
 LANGS = ["java", "kotlin", "groovy", "scala"]
 OMITS = {  # language -> node kind -> attribute whose absence means "annotation omitted" (None: language/translator never omits)
@@ -805,7 +810,20 @@ def rules():
         RuleSpec("C12-R8", "operator text (Operator.__str__ over every operator name of the IR)", 2, r8_operator_text),
         RuleSpec("C12-R9", "Java spelling of primitive and boxed built-in types (get_name along the MRO)", 16, r9_java_primitive_names),
         RuleSpec("C12-R10", "variance keywords: Covariant prints `out`, Contravariant `in`, Invariant nothing", 4, r10_variance),
+        RuleSpec("C12-R11", "brackets and quotes: the literals every translator method evaluates are balanced on every path", 150,
+                 r11_balance,
+                 "induction over the tree: balanced children texts + balanced own literals on every decision-consistent "
+                 "path = balanced translation; (), {}, [], <>, double quotes"),
     ]
+
+
+def r11_balance(repo):
+    from .. import balance
+    obs = []
+    for lang in LANGS:
+        obs += balance.check_module(repo, "src.translators." + lang, "C12-R11", lang, Ob)
+    obs += balance.check_module(repo, "src.translators.base", "C12-R11", "base", Ob)
+    return obs
 
 
 # -- variants -------------------------------------------------------------------------
@@ -910,8 +928,41 @@ def _t_rename(tree):
     V.rename_local(f, "field_res", "fields_txt")
 
 
+def _drop_char(fname, ch, nth=0):
+    def edit(tree):
+        f = V.find_def(tree, fname)
+        cs = [n for n in ast.walk(f) if isinstance(n, ast.Constant) and isinstance(n.value, str) and ch in n.value]
+        if len(cs) <= nth:
+            raise V.SkipVariant("no literal with %r in %s" % (ch, fname))
+        c = cs[nth]
+        i = c.value.rindex(ch)
+        c.value = c.value[:i] + c.value[i + 1:]
+    return edit
+
+
+def _t_split_brace_into_helper(tree):
+    """twin: the closing brace of a Kotlin class body comes from a new helper method (judged inside its caller)"""
+    cls = V.find_def(tree, "KotlinTranslator")
+    f = V.find_def(tree, "KotlinTranslator.visit_class_decl")
+    cs = [n for n in ast.walk(f) if isinstance(n, ast.Constant) and n.value == "}"]
+    if not cs:
+        raise V.SkipVariant("no closing brace literal")
+    V.replace_node(tree, cs[0], V.parse_expr("self._close_body()"))
+    cls.body.append(ast.parse("def _close_body(self):\n    return '}'").body[0])
+
+
 def variants():
     return [
+        V.Variant("kotlin: a class body is never closed", "src/translators/kotlin.py",
+                  _drop_char("KotlinTranslator.visit_class_decl", "}", 1), {"C12-R11"}),
+        V.Variant("scala: type parameters of a class lose their closing bracket", "src/translators/scala.py",
+                  _drop_char("ScalaTranslator.visit_class_decl", "]"), {"C12-R11"}),
+        V.Variant("groovy: a call loses its closing parenthesis", "src/translators/groovy.py",
+                  _drop_char("GroovyTranslator.visit_func_call", ")"), {"C12-R11"}),
+        V.Variant("kotlin: string constant opened but not closed", "src/translators/kotlin.py",
+                  _drop_char("KotlinTranslator.visit_string_constant", '"'), {"C12-R11"}),
+        V.Variant("twin: the closing brace comes from a new helper method", "src/translators/kotlin.py",
+                  _t_split_brace_into_helper, None, twin=True),
         V.Variant("kotlin: variable type printed from inferred_type, unguarded", "src/translators/kotlin.py", _v_kotlin_unguarded_inferred, {"C12-R1"}),
         V.Variant("scala: function return type always printed", "src/translators/scala.py", _v_scala_ret_always, {"C12-R1"}),
         V.Variant("scala: visit_new ignores can_infer_type_args", "src/translators/scala.py", _v_scala_new_ignores_flag, {"C12-R3"}),
